@@ -31,3 +31,11 @@ claim("C04", CORE_TEXT + "C04: permission tables (nested, overlapping, duplicate
       "computes the set of admissible verdicts from the nearest entries on the resolved path and a refusal must leave tree and cwd "
       "unchanged (invariant C04_RefusalIsNoop on MC_Perm, tree snapshot comparison on the implementation).",
       "TLA+ trace validation over permission tables and path aliases + TLC model check (MC_Perm)")
+claim("C02", "PathModel.tla defines resolution (fold of '..' from the root, normal form, re-rooting under the base, backslash = separator on "
+      "Windows real paths); TLC judges every recorded (input, output) pair of the real Server.get_paths for all arguments up to a "
+      "segment bound over a hostile segment alphabet x prefixes x working directories x POSIX/Windows bases, and checks structural "
+      "properties of the definition on the same inputs. At the wire, FtpCore's trace validation rejects any backend call whose path "
+      "is outside the user's base and any PWD that differs from the model's working directory.",
+      "TLC evaluation of PathModel on exhaustively enumerated get_paths pairs + TLA+ trace validation at the wire",
+      note="Trusted base: TLC; the harness's splitting of strings on '/' and '\\\\'; pathlib.Pure*Path as the representation of bases (no "
+           "real Windows file system is involved); CPython 3.12 pathlib join semantics.")
